@@ -214,29 +214,30 @@ func (l *List) M__setitem__(key, value Object) (Object, error) {
 		if err != nil {
 			return nil, err
 		}
+		// Evaluate the right hand side first - it may be the list itself
+		newItems, err := SequenceTuple(value)
+		if err != nil {
+			return nil, err
+		}
+		if value == Object(l) {
+			newItems = newItems.Copy()
+		}
 		if step == 1 {
+			if stop < start {
+				stop = start
+			}
 			// Make a copy of the tail
 			tailSlice := l.Items[stop:]
 			tail := make([]Object, len(tailSlice))
 			copy(tail, tailSlice)
-			l.Items = l.Items[:start]
-			err = l.ExtendSequence(value)
-			if err != nil {
-				return nil, err
-			}
+			l.Items = append(l.Items[:start], newItems...)
 			l.Items = append(l.Items, tail...)
 		} else {
-			newItems, err := SequenceTuple(value)
-			if err != nil {
-				return nil, err
-			}
 			if len(newItems) != slicelength {
 				return nil, ExceptionNewf(ValueError, "attempt to assign sequence of size %d to extended slice of size %d", len(newItems), slicelength)
 			}
-			j := 0
-			for i := start; i < stop; i += step {
+			for i, j := start, 0; j < slicelength; i, j = i+step, j+1 {
 				l.Items[i] = newItems[j]
-				j++
 			}
 		}
 	} else {
